@@ -226,3 +226,77 @@ def gen_granger_attrs():
 
 
 GENERATORS.append(gen_granger_attrs)
+
+
+# ---------------------------------------------------------------------------------------------------------------------
+# Wave 6: the CONTROL FLOW of the order loop of `lwr_recursion`.  The theorems (`lwr_solves`, `lwr_exact_recovery_sparse`)
+# are about a recursion that performs EVERY pass p = 0..P-1: a vanishing reflection numerator is an ordinary pass
+# (`lwr_zero_reflection_step`), not a reason to stop.  Generated: the loop header, every statement inside the loop that
+# leaves it early (`break`, `continue`, `return`, `raise`, and conditionals guarding the updates), and what follows it.
+def _exits(node, depth=0):
+    """(kind, lineno-free description) of every statement below `node` that ends a pass or the loop early"""
+    out = []
+    for sub in ast.iter_child_nodes(node):
+        if isinstance(sub, (ast.FunctionDef, ast.Lambda, ast.ClassDef)):
+            continue
+        if isinstance(sub, (ast.Break, ast.Continue, ast.Return, ast.Raise)):
+            out.append(type(sub).__name__.lower())
+        out += _exits(sub, depth + 1)
+    return out
+
+
+def gen_lwr_flow():
+    info = {'source': 'nitime/algorithms/autoregressive.py:lwr_recursion'}
+    exits, guards, over_range_p, ret_after, whiles = ['<untranslated>'], ['<untranslated>'], 'false', 'false', 0
+    try:
+        tree = tr.parse('nitime/algorithms/autoregressive.py')
+        fn = tr.find_func(tree, 'lwr_recursion')
+        loops = [s for s in fn.body if isinstance(s, ast.For)]
+        whiles = len([n for n in ast.walk(fn) if isinstance(n, ast.While)])
+        if len(loops) == 1:
+            lp = loops[0]
+            exits = _exits(lp) + (['else-clause'] if lp.orelse else [])
+            # conditionals at any depth inside the order loop: a guarded update is a skipped update
+            guards = [ast.unparse(n.test) for n in ast.walk(lp) if isinstance(n, (ast.If, ast.IfExp))]
+            guards += ['try'] * len([n for n in ast.walk(lp) if isinstance(n, ast.Try)])
+            # `for p in range(P)` with `P = r.shape[0] - 1` assigned once before the loop
+            it = lp.iter
+            pa = assigns(fn.body, 'P')
+            if (isinstance(lp.target, ast.Name) and lp.target.id == 'p' and isinstance(it, ast.Call) and getattr(it.func, 'id', None) == 'range'
+                    and len(it.args) == 1 and not it.keywords and isinstance(it.args[0], ast.Name) and it.args[0].id == 'P'
+                    and len(pa) == 1 and ast.unparse(pa[0].value).replace(' ', '') == 'r.shape[0]-1'
+                    and fn.body.index(pa[0]) < fn.body.index(lp)
+                    and not any(isinstance(t, ast.Name) and t.id in ('p', 'P') for n in ast.walk(lp) if isinstance(n, (ast.Assign, ast.AugAssign))
+                                for t in (n.targets if isinstance(n, ast.Assign) else [n.target]))):
+                over_range_p = 'true'
+            # the loop is followed directly by `return a, sigf`, the only return of the function
+            after = fn.body[fn.body.index(lp) + 1:]
+            rets = [n for n in ast.walk(fn) if isinstance(n, ast.Return)]
+            if len(after) == 1 and isinstance(after[0], ast.Return) and len(rets) == 1 and ast.unparse(after[0].value).replace(' ', '') in ('a,sigf', '(a,sigf)'):
+                ret_after = 'true'
+            info['loop'] = 'for %s in %s' % (ast.unparse(lp.target), ast.unparse(it))
+        else:
+            exits = ['<%d top-level for loops>' % len(loops)]
+    except Exception as ex:  # noqa
+        info['error'] = repr(ex)
+    info.update(orderLoopExits=exits, orderLoopGuards=guards, orderLoopOverRangeP=over_range_p, returnsAfterLoop=ret_after, whileLoops=whiles)
+    q = lambda l: '[' + ', '.join('"%s"' % x.replace('\\', '\\\\').replace('"', '\\"') for x in l) + ']'
+    text = '\n'.join([
+        '-- GENERATED by harness/translate_c11.py from nitime/algorithms/autoregressive.py (lwr_recursion). DO NOT EDIT.',
+        'namespace Nitime.Generated.LwrFlow', '',
+        '/-- every `break` / `continue` / `return` / `raise` (and a `for … else`) inside the order loop `for p in range(P)`,',
+        'nested loops included -/',
+        'def orderLoopExits : List String := %s' % q(exits), '',
+        '/-- the test of every `if` / conditional expression (and `try`) inside the order loop: a guarded update is a skipped update -/',
+        'def orderLoopGuards : List String := %s' % q(guards), '',
+        '/-- the loop header is `for p in range(P)` with `P = r.shape[0] - 1` assigned once before it; neither is reassigned inside -/',
+        'def orderLoopOverRangeP : Bool := %s' % over_range_p, '',
+        '/-- the loop is followed directly by the only `return`, of `(a, sigf)` -/',
+        'def returnsAfterLoop : Bool := %s' % ret_after, '',
+        '/-- `while` loops anywhere in the function -/',
+        'def whileLoops : Nat := %d' % whiles, '',
+        'end Nitime.Generated.LwrFlow', ''])
+    return 'LwrFlow.lean', text, info
+
+
+GENERATORS.append(gen_lwr_flow)
